@@ -32,6 +32,12 @@ func concFiles() map[string]string {
 		"plain.tw":           "plain {{ gid + 1 }} {{ who }}",
 		"chain.tw":           "@if(zero)a@elseif(zero)b@elseif(zero == 1)c@elseif(zero)d@else e{{ who }}@end|@if(zero)x@elseif(gid > 1000)y@elseif(zero)z@else w@end",
 		"errors/500.tw":      "<custom error page>",
+		"badpass.tw":         "<ul>@each(v in items)<li>{{ v.pause() }} {{ who }}</li>{{ 6 / (v % 10 - 1) }}@end</ul>",
+		"badfor.tw":          "@for(k = 0; k < 4; k++)[{{ who }} {{ 6 / (2 - k) }}]@end",
+		"assignint.tw":       "{{ v = 1 }}{{ w = [1, 2] }}int {{ v.pause() }}",
+		"assignstr.tw":       "{{ v = \"s\" }}{{ w = 2.5 }}str {{ v }}",
+		"readv.tw":           "read {{ v }}",
+		"assignlayout.tw":    "@use(\"~main\")@insert(\"title\", \"T\")@insert(\"body\"){{ v = true }}{{ v }}@end",
 	}
 }
 
@@ -78,6 +84,24 @@ func concOps() []concOp {
 			out, err := textwire.EvaluateString("x {{ who }}\n{{ gid / zero }}", data)
 			return fmt.Sprintf("out=%s err=%v", out, err)
 		}},
+		// loops that fail in a later pass, after earlier passes produced output
+		{"String(badpass)", false, str("badpass")},
+		{"Response(badfor)", false, resp("badfor")},
+		// renders without data that assign at top level, and one that reads the name (it must fail)
+		{"String(assignint, nil)", false, func(tpl *textwire.Template, _ map[string]any, abs string) string {
+			return str("assignint")(tpl, nil, abs)
+		}},
+		{"String(assignstr, nil)", false, func(tpl *textwire.Template, _ map[string]any, abs string) string {
+			return str("assignstr")(tpl, nil, abs)
+		}},
+		{"String(readv, nil)", false, func(tpl *textwire.Template, _ map[string]any, abs string) string { return str("readv")(tpl, nil, abs) }},
+		{"Response(assignlayout, nil)", false, func(tpl *textwire.Template, _ map[string]any, abs string) string {
+			return resp("assignlayout")(tpl, nil, abs)
+		}},
+		{"EvaluateString(assign, nil)", false, func(tpl *textwire.Template, data map[string]any, abs string) string {
+			out, err := textwire.EvaluateString("{{ v = {a: 1} }}{{ w = \"x\" }}{{ v.a }}{{ w }}", nil)
+			return fmt.Sprintf("out=%s err=%v", out, err)
+		}},
 		{"EvaluateFile(plain)", false, func(tpl *textwire.Template, data map[string]any, abs string) string {
 			out, err := textwire.EvaluateFile(abs, data)
 			return fmt.Sprintf("out=%s err=%v", out, err)
@@ -106,7 +130,7 @@ func init() {
 		Race:       true,
 		MaxWorkers: 6,
 		CPUBudget:  120,
-		Rule: "rounds of G in {2, 8, 32(,128)} goroutines x GOMAXPROCS in {1, 2, 16}, every goroutine issuing 200 operations drawn (seeded) from 13 concrete calls on one loaded tree - String of a layout+component-in-loop page, a loop page, an object/dump page, two pages failing at run time, a missing name, a shuffle() page; Response ok/failing/missing (error page through the string API); EvaluateString ok/failing; EvaluateFile - with goroutine-specific data; a registered custom function called from inside the templates yields or sleeps 50us on a seeded schedule. " +
+		Rule: "rounds of G in {2, 8, 32(,128)} goroutines x GOMAXPROCS in {1, 2, 16}, every goroutine issuing 200 operations drawn (seeded) from 21 concrete calls on one loaded tree - String of a layout+component-in-loop page, a loop page, an object/dump page, two pages failing at run time, a missing name, a shuffle() page; Response ok/failing/missing (error page through the string API); EvaluateString ok/failing; EvaluateFile; loops that fail in a later pass after producing output; renders without any data that assign names at top level (as integer, string, boolean, object) next to one that reads the name and must fail - with goroutine-specific data otherwise; a registered custom function called from inside the templates yields or sleeps 50us on a seeded schedule. " +
 			"Oracles: the harness is built with the Go race detector (halt_on_error=0, log per process); after the rounds the log is parsed and every report with a frame inside the repository is a violation (de-duplicated by the pair of innermost repository frames); the recorded history (goroutine, operation, logical call/return stamps from one atomic counter, result) is checked offline against the stateless model: every result must equal what the same operation returned alone before the round (shuffle as a multiset). Evidence counts operations that overlapped an operation of a different kind. distinct_nontrivial = distinct (round, goroutine, operation) triples that overlapped another kind",
 		Assumptions: []string{
 			"only interleavings the scheduler produced; the race detector sees races between accesses that actually executed",
